@@ -1,6 +1,7 @@
 """Defines a RemoteStore, a store implementation that can connect to a remote liquer server
 via liquer server store API.
 """
+from io import BytesIO
 from liquer.store import Store, StoreException
 import requests
 
